@@ -335,6 +335,10 @@ func exec(t []string) string {
 			msg = err.InnerError().Error()
 		}
 		return "err " + errName(msg)
+	case "maj":
+		return execMaj(atoi(t[1]), atoi(t[2]))
+	case "sig":
+		return execSig(t)
 	case "wflow":
 		return execFlow(t)
 	case "mp":
@@ -607,10 +611,18 @@ func hasDup(xs []int) bool {
 
 func oracle(t []string, out string) *hx.Violation {
 	bad := func(kind, detail string) *hx.Violation { return &hx.Violation{Kind: kind, Detail: detail} }
-	if out != "ok" && t[0] != "wflow" && t[0] != "mp" {
+	if out != "ok" && t[0] != "wflow" && t[0] != "mp" && t[0] != "maj" {
 		return nil
 	}
 	switch t[0] {
+	case "maj":
+		if d, ok := oracleMaj(out); !ok {
+			return bad("withdraw-majority-count", d)
+		}
+	case "sig":
+		if d, ok := oracleSig(t); !ok {
+			return bad("withdraw-signers-below-quorum", d)
+		}
 	case "mp":
 		seen := map[int]int{}
 		for i, w := range poolHeld {
@@ -768,7 +780,7 @@ func nontrivial(t []string, out string) bool { return true }
 
 func bucket(t []string, out string) string {
 	k := t[0]
-	if t[0] == "wflow" || t[0] == "mp" {
+	if t[0] == "wflow" || t[0] == "mp" || t[0] == "maj" {
 		return k
 	}
 	if t[0] == "chk" {
